@@ -227,6 +227,43 @@ theorem strictMonoOn_of_sums (tbl : List (List Term3)) (a : Int) (cA cG : List I
     rw [e1, e2]
     exact hb
 
+/-- The derivative of the longitude series of a generated table differs from the secular rate `a` by at most
+    the triangle-inequality bound, for `|t| ≤ T`. -/
+theorem deriv_bounds_of_sums (tbl : List (List Term3)) (a : Int) (cA cG : List Int) (T β : ℝ)
+    (hlead : (tbl.getD 1 []).head? = some (a, 0, 0))
+    (hA : tbl.map sumAbsA = cA) (hG : tbl.map sumAbsAC = cG)
+    (hb : bSums T 0 (subAt1 cA a) cG ≤ β) (t : ℝ) (ht : |t| ≤ T) :
+    ∃ d, HasDerivAt (Spec.directSum (vsopOfScaled tbl)) d t ∧ |d - (a : ℝ) / 10 ^ expA| ≤ β := by
+  match tbl, hlead with
+  | s0 :: (x :: s1) :: rest, hlead =>
+    have hx : x = (a, 0, 0) := by simpa using hlead
+    subst hx
+    have htab : vsopOfScaled (s0 :: ((a, 0, 0) :: s1) :: rest) =
+        s0.map termOfScaled :: (((a : ℝ) / 10 ^ expA, 0, 0) :: s1.map termOfScaled) :: vsopOfScaled rest := by
+      simp [vsopOfScaled, termOfScaled, numOfScaled]
+    have h2 : (s0.map termOfScaled :: s1.map termOfScaled :: vsopOfScaled rest) = vsopOfScaled (s0 :: s1 :: rest) := by
+      simp [vsopOfScaled]
+    have e1 : (s0 :: s1 :: rest).map sumAbsA = subAt1 cA a := by
+      rw [← hA]; simp [subAt1, sumAbsA]
+    have e2 : (s0 :: s1 :: rest).map sumAbsAC = cG := by
+      rw [← hG]; simp [sumAbsAC]
+    set A : ℝ := (a : ℝ) / 10 ^ expA with hAdef
+    set L' := s0.map termOfScaled :: s1.map termOfScaled :: vsopOfScaled rest with hL'
+    have hfun : Spec.directSum (vsopOfScaled (s0 :: ((a, 0, 0) :: s1) :: rest)) = fun t => A * t + eFrom t 0 L' := by
+      funext t; rw [htab, directSum_lead, directSum_eq_eFrom]
+    have hd : HasDerivAt (fun t => A * t + eFrom t 0 L') (A + dFrom t 0 L') t := by
+      have h := ((hasDerivAt_id t).const_mul A).add (hasDerivAt_eFrom L' 0 t)
+      have hf : (fun t => A * t + eFrom t 0 L') = (fun y => A * id y) + fun t => eFrom t 0 L' := by
+        funext t; simp
+      rw [hf]
+      simpa using h
+    refine ⟨A + dFrom t 0 L', by rw [hfun]; exact hd, ?_⟩
+    have hbd := abs_dFrom_le L' 0 t T ht
+    have hbf : bFrom T 0 L' = bSums T 0 (subAt1 cA a) cG := by rw [h2, bFrom_scaled, e1, e2]
+    have : A + dFrom t 0 L' - A = dFrom t 0 L' := by ring
+    rw [this]
+    exact (hbd.trans (le_of_eq hbf)).trans hb
+
 /-! ### numerical lemmas for the per-planet constants -/
 
 lemma leadAmp_scaled (tbl : List (List Term3)) (a b c : Int) (h : (tbl.getD 1 []).head? = some (a, b, c)) :
@@ -273,6 +310,41 @@ lemma rate_of_bounds (x rate : ℝ) (hr : 0 < rate)
   rw [e, abs_div, abs_of_pos (by positivity : (0 : ℝ) < Real.pi * 100000000), div_le_iff₀ (by positivity)]
   have q1 : rate * 3.1415926535 ≤ rate * Real.pi := mul_le_mul_of_nonneg_left p1.le hr.le
   have q2 : rate * Real.pi ≤ rate * 3.1415926536 := mul_le_mul_of_nonneg_left p2.le hr.le
+  rw [abs_le]; constructor <;> nlinarith
+
+/-- amplitude of the first term of series 0 of a generated table -/
+lemma lead0_scaled (tbl : List (List Term3)) (a b c : Int) (h : (tbl.getD 0 []).head? = some (a, b, c)) :
+    (((vsopOfScaled tbl).getD 0 []).headD (0, 0, 0)).1 = (a : ℝ) / 10 ^ expA := by
+  match tbl, h with
+  | (x :: s0) :: rest, h =>
+    have hx : x = (a, b, c) := by simpa using h
+    subst hx
+    simp [vsopOfScaled, termOfScaled, numOfScaled]
+
+/-- amplitude of the first term of series 2 of a generated table -/
+lemma lead2_scaled (tbl : List (List Term3)) (a b c : Int) (h : (tbl.getD 2 []).head? = some (a, b, c)) :
+    (((vsopOfScaled tbl).getD 2 []).headD (0, 0, 0)).1 = (a : ℝ) / 10 ^ expA := by
+  match tbl, h with
+  | s0 :: s1 :: (x :: s2) :: rest, h =>
+    have hx : x = (a, b, c) := by simpa using h
+    subst hx
+    simp [vsopOfScaled, termOfScaled, numOfScaled]
+
+/-- a secular acceleration `x` (1e-8 rad per millennium²) against a `T²` coefficient `c` in degrees per
+    century², absolute tolerance `tol`, reduced to two rational inequalities by 10-digit bounds on π -/
+lemma accel_of_bounds (x c tol : ℝ) (hx : 0 ≤ x) (hc : 0 ≤ c - tol)
+    (h1 : x * 180 ≤ (c + tol) * 3.1415926535 * 10000000000)
+    (h2 : (c - tol) * 3.1415926536 * 10000000000 ≤ x * 180) :
+    |x / 100000000 * (180 / Real.pi) / 100 - c| ≤ tol := by
+  have p1 : (3.1415926535 : ℝ) < Real.pi := lt_trans (by norm_num) Real.pi_gt_d20
+  have p2 : Real.pi < (3.1415926536 : ℝ) := lt_trans Real.pi_lt_d20 (by norm_num)
+  have hpi : 0 < Real.pi := Real.pi_pos
+  have e : x / 100000000 * (180 / Real.pi) / 100 - c = (x * 180 - c * Real.pi * 10000000000) / (Real.pi * 10000000000) := by
+    field_simp; ring
+  rw [e, abs_div, abs_of_pos (by positivity : (0 : ℝ) < Real.pi * 10000000000), div_le_iff₀ (by positivity)]
+  have hct : 0 ≤ c + tol := by linarith
+  have q1 : (c + tol) * 3.1415926535 ≤ (c + tol) * Real.pi := mul_le_mul_of_nonneg_left p1.le hct
+  have q2 : (c - tol) * Real.pi ≤ (c - tol) * 3.1415926536 := mul_le_mul_of_nonneg_left p2.le hc
   rw [abs_le]; constructor <;> nlinarith
 
 /-- a one-term table whose only series is identically zero (witness of `C07.geometric_lon_range_counterexample`) -/
